@@ -157,3 +157,27 @@ func Normalize(s string) string {
 	}
 	return out
 }
+
+// ReplayCase loads the saved case when the driver runs in replay mode; used by
+// tests that enumerate instead of drawing from rapid.
+func ReplayCase[C any](t *testing.T) (c C, ok bool) {
+	p := os.Getenv("VERIF_REPLAY")
+	if p == "" {
+		return c, false
+	}
+	data, err := os.ReadFile(p)
+	if err != nil {
+		t.Fatalf("replay: %v", err)
+	}
+	var doc replayDoc
+	if err := json.Unmarshal(data, &doc); err != nil {
+		t.Fatalf("replay: %v", err)
+	}
+	if doc.Test != t.Name() {
+		t.Skipf("replay file is for %s", doc.Test)
+	}
+	if err := json.Unmarshal(doc.Case, &c); err != nil {
+		t.Fatalf("replay: cannot decode case: %v", err)
+	}
+	return c, true
+}
